@@ -16,7 +16,7 @@ EXPLANATION = (
     "Decided (static, MIR): C16.1 control-message traversal is bounded by the supplied buffer: in the cmsg macros' expansions and the iterator no address is taken OF a pointer-typed place and turned into an integer "
     "(`addr_of!(ptr) as usize` is the address of the pointer variable, not of the buffer) - the end bound and the current position derive from the pointers' values; the same lint is reported as a note elsewhere; "
     "C16.2 try_accept / try_connect (Unix and TCP) and TcpStreamInProgress::try_connect reach no poll/epoll/sleep/futex wrapper, and every socket()/accept4() in tiny-std's net module carries SOCK_NONBLOCK|SOCK_CLOEXEC; "
-    "C16.3 Error::Timeout is constructed only on the `ppoll(..) == Ok(0)` edge; the Duration reaches ppoll as a TimeSpec converted once, None stays a null timeout, EINTR re-polls (and only EINTR), and after readiness the operation is retried with the same arguments; "
+    "C16.3 Error::Timeout is constructed only on the `ppoll(..) == Ok(0)` edge; the Duration reaches ppoll as a TimeSpec converted once by the library's own TryFrom<Duration> (whose tv_sec/tv_nsec are as_secs()/subsec_nanos() unmodified, so no part of the limit is dropped), None stays a null timeout, EINTR re-polls (and only EINTR), and after readiness the operation is retried with the same arguments; "
     "C16.4 at every raw syscall site in rusl a (pointer, length) pair taken from a slice comes from ONE slice; "
     "C16.5 sockaddr_in gets the port in network order and the address bytes in memory order; the Unix address conversion rejects a path that has no terminator within 108 bytes and reports len(path incl. NUL) + size_of(sa_family_t). "
     "NOT decided: in-order complete delivery when buffers fill, completion of blocking calls when the peer acts, timing bounds (kernel and scheduling).")
